@@ -502,6 +502,50 @@ def arip_run(line: str, capture=False):
     return out
 
 
+def parse_arip_mv(line: str):
+    """aripmv <F> <T> <start> <form> <agg> <nv> <nLow> low (row major nLow*nv)… <nHigh> target…  ->  per-variant aripq lines"""
+    ws = line.split()
+    nv, n_low = int(ws[6]), int(ws[7])
+    lows = ws[8:8 + n_low * nv]
+    rest = ws[8 + n_low * nv:]
+    return nv, [" ".join(["aripq"] + ws[1:6] + [str(n_low)] + [lows[i * nv + v] for i in range(n_low)] + rest) for v in range(nv)]
+
+
+def arip_run_mv(line: str):
+    """one call on the multi-variant series; -> one result dict per variant (its column, its captured F and C)"""
+    nv, vlines = parse_arip_mv(line)
+    parsed = [parse_arip(l) for l in vlines]
+    f, t, start, form, agg, _, target = parsed[0]
+    n_low = len(parsed[0][5])
+    x = mk_series(f, start, nv, [[parsed[v][5][i] for v in range(nv)] for i in range(n_low)])
+    kw = {}
+    if any(not isnan(v) for v in target):
+        hs = CLS[t].from_ymd(*CLS[f](start).to_ymd(position="start"))
+        kw["target"] = ir.Series(start=hs, values=np.array(target, dtype=float))
+    caps = []
+    orig = np.linalg.solve
+
+    def cap(Fm, Cm, *a, **k):
+        caps.append((np.array(Fm, dtype=float), np.array(Cm, dtype=float)))
+        return orig(Fm, Cm, *a, **k)
+    np.linalg.solve = cap
+    outs = [dict() for _ in range(nv)]
+    try:
+        y = ir.disaggregate(x, FREQ[t], method="arip", model=(form, agg), **kw)
+        data = np.asarray(y.data, dtype=float)
+        for v in range(nv):
+            outs[v]["start"] = None if y.start is None else int(y.start.serial)
+            outs[v]["y"] = [float(z) for z in data[:, v]] if data.shape[1] == nv else []
+            if len(caps) == nv:
+                outs[v]["F"], outs[v]["C"] = caps[v]
+    except Exception as e:
+        for v in range(nv):
+            outs[v]["err"] = err_kind(e) + ":" + type(e).__name__
+    finally:
+        np.linalg.solve = orig
+    return vlines, outs
+
+
 def arip_model_line(line: str, op="arip", kkt="1") -> str:
     f, t, start, form, agg, low, target = parse_arip(line)
     w = FVAL[t] // FVAL[f]
@@ -552,7 +596,7 @@ def arip_exact_minimiser(f, t, form, le, av, target):
     return K, c, sol[:n_high]
 
 
-def oracle_arip(ctx: Ctx, line: str, res: dict, tol=1e-8):
+def oracle_arip(ctx: Ctx, line: str, res: dict, tol=1e-8, case=None, tag=""):
     """constraints, targets, optimality (exact KKT solve of the documented criterion), round trip through ir.aggregate"""
     f, t, start, form, agg, low, target = parse_arip(line)
     w = FVAL[t] // FVAL[f]
@@ -565,12 +609,12 @@ def oracle_arip(ctx: Ctx, line: str, res: dict, tol=1e-8):
         return "singular"
     K, c, xs = kkt
     if "err" in res:
-        ctx.fail("arip-raises", {"line": line}, f"disaggregate(method='arip') raised {res['err']} although the constrained problem has a unique solution")
+        ctx.fail("arip-raises", case or {"line": line}, tag + f"disaggregate(method='arip') raised {res['err']} although the constrained problem has a unique solution")
         return
     y = res["y"]
     hs = period_containing(t, period_days(f, start)[0])
     if res["start"] != hs or len(y) != n_high:
-        ctx.fail("arip-constraints", {"line": line}, f"output spans start={res['start']} len={len(y)}, expected start={hs} len={n_high}")
+        ctx.fail("arip-constraints", case or {"line": line}, tag + f"output spans start={res['start']} len={len(y)}, expected start={hs} len={n_high}")
         return
     scale = max([1.0] + [abs(v) for v in y])
     yq = [Fr(v) for v in y]
@@ -579,11 +623,11 @@ def oracle_arip(ctx: Ctx, line: str, res: dict, tol=1e-8):
         if math.isfinite(lv):
             r = sum(Fr(a) * yq[i * w + k] for k, a in enumerate(av)) - Fr(lv)
             if abs(r) > tol * scale * max(1.0, sum(abs(a) for a in av)):
-                ctx.fail("arip-constraints", {"line": line}, f"low period {i}: aggregation row gives residual {float(r):.3e} (value {lv})")
+                ctx.fail("arip-constraints", case or {"line": line}, tag + f"low period {i}: aggregation row gives residual {float(r):.3e} (value {lv})")
                 return
     for j, tv in enumerate(target):
         if math.isfinite(tv) and abs(yq[j] - Fr(tv)) > tol * scale:
-            ctx.fail("arip-targets", {"line": line}, f"high period {j}: target {tv} but output {y[j]}")
+            ctx.fail("arip-targets", case or {"line": line}, tag + f"high period {j}: target {tv} but output {y[j]}")
             return
     # round trip through the public aggregate with the declared aggregation
     if isinstance(agg, str):
@@ -594,14 +638,14 @@ def oracle_arip(ctx: Ctx, line: str, res: dict, tol=1e-8):
             if math.isfinite(lv):
                 b = bmap.get(start + i, [NAN])[0]
                 if not (abs(b - lv) <= tol * scale * w):
-                    ctx.fail("arip-roundtrip", {"line": line}, f"aggregate('{agg}') of the arip output gives {b} at low period {i}, original {lv}")
+                    ctx.fail("arip-roundtrip", case or {"line": line}, tag + f"aggregate('{agg}') of the arip output gives {b} at low period {i}, original {lv}")
                     return
     dev = max(abs(float(xs[j] - yq[j])) for j in range(n_high))
     if dev > 1e-6 * scale:
         def obj(x):
             return float(sum((sum(K[r][j] * x[j] for j in (r, r + 1)) - c[r]) ** 2 for r in range(n_high - 1)))
-        ctx.fail("arip-not-minimiser", {"line": line},
-                 f"output deviates {dev:.3e} from the constrained minimiser of sum(((x[t+1]-rho*x[t]-c)/sigma[t+1])^2): "
+        ctx.fail("arip-not-minimiser", case or {"line": line},
+                 tag + f"output deviates {dev:.3e} from the constrained minimiser of sum(((x[t+1]-rho*x[t]-c)/sigma[t+1])^2): "
                  f"criterion {obj(yq):.9g} at the output vs {obj(xs):.9g} at the minimiser (same constraints met)")
 
 
@@ -891,6 +935,46 @@ def gen_arip(ctx: Ctx, count=None):
     return lines
 
 
+def gen_arip_mv(ctx: Ctx, count=None):
+    """series with 2-3 variants whose levels, slopes / growth rates and NaN patterns differ: the code solves one system per
+    variant, and every variant is judged against its own exact minimiser and its own model solve"""
+    rng = ctx.rng.fork("arip-mv")
+    lines = []
+    for _ in range(count or ctx.n(40, 250)):
+        hi, lo = rng.choice(PAIRS)
+        w = FVAL[hi] // FVAL[lo]
+        n_low = rng.randint(2, 3 if w >= 6 else 5)
+        if ctx.quick and w == 12:
+            n_low = 2
+        nv = rng.choice([2, 2, 3])
+        form = rng.choice(["diff", "rate"])
+        aggspec = rng.weighted([("sum", 3), ("mean", 3), ("first", 1), ("last", 2), ("custom", 1)])
+        if aggspec == "custom":
+            aggspec = ",".join(frac_text(Fr(rng.randint(1, 6), rng.choice([1, 2, 4]))) for _ in range(w))
+        cols = []
+        for v in range(nv):
+            val = float(rng.randint(8, 40))
+            step = rng.choice([-3.0, -1.5, 0.0, 0.5, 2.0, 4.5, 7.0])         # a different drift per variant
+            growth = rng.choice([0.875, 1.0, 1.125, 1.25, 1.5])
+            col = []
+            for _ in range(n_low):
+                col.append(val)
+                val = val + step + rng.randint(-1, 1) * 0.5 if form == "diff" else max(1.0, val * growth)
+            if n_low >= 3 and rng.chance(0.2):
+                col[rng.randint(1, n_low - 2)] = NAN
+            cols.append(col)
+        target = [NAN] * (n_low * w)
+        if rng.chance(0.3):
+            for _ in range(rng.randint(1, max(1, w // 2))):
+                target[rng.randint(0, n_low * w - 1)] = float(rng.randint(4, 40)) / 4
+        start = rng.choice([1999, 2020]) * FVAL[lo] + rng.randint(0, FVAL[lo] - 1)
+        toks = ["aripmv", lo, hi, str(start), form, aggspec, str(nv), str(n_low)] \
+            + [vtext(cols[v][i]) for i in range(n_low) for v in range(nv)] + [str(n_low * w)] + [vtext(x) for x in target]
+        lines.append(" ".join(toks))
+        ctx.count(f"arip:mv:{form}:nv{nv}")
+    return lines
+
+
 # ---------------------------------------------------------------------------------------
 # reuse / isolation: the conversions never modify or alias their inputs, and a later call that reuses the same input
 # objects gives what it gives on fresh copies.  Case lines (values as num/den | nan):
@@ -1097,9 +1181,16 @@ def run_series_stream(ctx: Ctx, name: str, lines, with_model=True):
 def run_arip_stream(ctx: Ctx, lines, with_model=True):
     sys_lines, sys_cases, sys_impl = [], [], []
     x_lines, x_cases, x_impl = [], [], []
+    items = []          # (replay case, single-variant aripq line, result for that variant, tag)
     for l in lines:
-        res = arip_run(l, capture=True)
-        verdict = oracle_arip(ctx, l, res)
+        if l.split()[0] == "aripmv":
+            vlines, outs = arip_run_mv(l)
+            for v, (vl, res) in enumerate(zip(vlines, outs)):
+                items.append(({"line": l}, vl, res, f"variant {v} of {len(outs)}: "))
+        else:
+            items.append(({"line": l}, l, arip_run(l, capture=True), ""))
+    for case, l, res, tag in items:
+        verdict = oracle_arip(ctx, l, res, case=case, tag=tag)
         ctx.evaluations += 1
         if verdict == "singular":
             # linearly dependent constraints: the exact system has no unique solution (the model answers "singular"),
@@ -1107,13 +1198,13 @@ def run_arip_stream(ctx: Ctx, lines, with_model=True):
             continue
         f, t, start, form, agg, low, target = parse_arip(l)
         if "y" in res:
-            ctx.nontriv(("arip", f, t, form, agg if isinstance(agg, str) else "custom", any(not isnan(x) for x in target), len(low)))
+            ctx.nontriv(("arip", f, t, form, agg if isinstance(agg, str) else "custom", any(not isnan(x) for x in target), len(low), tag[:9]))
         if not with_model:
             continue
         if form == "diff" and "F" in res:
-            sys_lines.append(arip_model_line(l, "aripsys", "1")); sys_cases.append({"line": l})
+            sys_lines.append(arip_model_line(l, "aripsys", "1")); sys_cases.append(case)
             sys_impl.append(qmat_text(res["F"]) + " | " + qmat_text(res["C"]))
-        x_lines.append(arip_model_line(l, "arip", "1")); x_cases.append({"line": l}); x_impl.append(res)
+        x_lines.append(arip_model_line(l, "arip", "1")); x_cases.append(case); x_impl.append(res)
     if not with_model:
         return
     ctx.compare("arip-system-matrices", sys_cases, sys_impl, ctx.model("C12", sys_lines))
@@ -1147,7 +1238,7 @@ def corpus_cases():
 
 def run_lines(ctx: Ctx, lines, name, with_model=True):
     ser = [l for l in lines if l.split()[0] in ORACLES]
-    ar = [l for l in lines if l.split()[0] == "aripq"]
+    ar = [l for l in lines if l.split()[0] in ("aripq", "aripmv")]
     run_reuse_stream(ctx, [l for l in lines if l.split()[0] == "reuse"])
     if ser:
         run_series_stream(ctx, name, ser, with_model)
@@ -1188,7 +1279,7 @@ def run(ctx: Ctx):
     run_series_stream(ctx, "disaggregate", gen_dis(ctx))
     run_series_stream(ctx, "disaggregate-daily", gen_dis_daily(ctx))
     run_series_stream(ctx, "roundtrip", gen_rt(ctx))
-    run_arip_stream(ctx, gen_arip(ctx))
+    run_arip_stream(ctx, gen_arip(ctx) + gen_arip_mv(ctx))
     run_reuse_stream(ctx, gen_reuse(ctx))
     ctx.exhaustive = False
     ctx.extra["exhaustive_parts"] = ("every start segment of the 6 regular pairs; every NaN mask of single-variant series up to length "
@@ -1202,7 +1293,7 @@ def search(ctx: Ctx, seeds):
     ctx.tier = "thorough"
     for gen in (gen_agg_regular, gen_agg_daily, gen_agg_daily_boundaries, gen_agg_select, gen_dis, gen_dis_daily, gen_rt):
         run_series_stream(ctx, "search", gen(ctx), with_model=False)
-    run_arip_stream(ctx, gen_arip(ctx, 300), with_model=False)
+    run_arip_stream(ctx, gen_arip(ctx, 300) + gen_arip_mv(ctx, 150), with_model=False)
     run_reuse_stream(ctx, gen_reuse(ctx))
 
 
